@@ -271,7 +271,7 @@ def run(tier):
         ck.violation("tie-broken:proof", "Props/C03.v no longer checks", getattr(ck, "proof_output", "")[-2000:])
     ck.coverage.update(
         evaluations=len(progs) + len(others) + len(impl3) + ncfg, distinct_nontrivial=len(distinct) + acc,
-        rule="generated valid programs with random pub/extern flags, with and without main (never executed here, so UB and non-termination are included), extern heads; every accepted module and the linked program through llvm-as and opt -passes=verify; every source function must be defined/declared with the linkage and calling convention of the generated table; plus multi-module sets (also through the real command line tool: the linked program handed to the interpreter must be valid and define main and every public function), accepted mutants of the corpus, inputs that once produced invalid IR, and the wasm32 target; distinct = (flag set, IR attributes) pairs + accepted other inputs",
+        rule="generated valid programs with random pub/extern flags, with and without main (never executed here, so UB and non-termination are included), extern heads; every accepted module and the linked program through llvm-as and opt -passes=verify; every source function must be defined/declared with the linkage and calling convention of the generated table; plus multi-module sets (also through the real command line tool: the linked program handed to the interpreter must be valid and define main and every public function), accepted mutants of the corpus, inputs that once produced invalid IR, and the wasm32 target; distinct = (flag set, IR attributes) pairs + accepted other inputs; aggregate literals whose elements disagree in type or length (constant and local): rejected or valid IR",
         stats=dict(stats), problems=bad, other_accepted=acc, cfg_skeletons=ncfg, cfg_stats=dict(cstats), cfg_block_counts=dict(csizes),
         cfg_rule="random accepted control-flow skeletons (goto, conditional goto, labels, nested blocks, if/else chains, loops with exits; distinct constants identify actions and conditions): the blocks of the emitted IR in creation order must be exactly Model/Cfg.v's (base names, actions per block, terminators, targets), and llvm-as + opt verify must accept them",
         samples=[dict(source=progs[0][1][:500], expect=progs[0][2], tools=impl.get(progs[0][0], ["?"] * 3)[2])])
